@@ -42,7 +42,7 @@ pub fn main_nsstress(args: &[String]) -> i32 {
                 let now = ops.load(Ordering::SeqCst) + 1_000_000 * phase.load(Ordering::SeqCst);
                 if now != last.0 {
                     last = (now, Instant::now());
-                } else if last.1.elapsed() > Duration::from_secs(5) {
+                } else if last.1.elapsed() > Duration::from_secs(15) {
                     let fl: Vec<i64> = inflight.iter().map(|a| a.load(Ordering::SeqCst)).collect();
                     println!(
                         "NSSTRESS hung=1 phase={} ops={} in_flight(create_topic,create_topic,delete_topic,create_sub,create_sub,delete_sub,get_info,list,final)={:?}",
